@@ -4,7 +4,7 @@ from . import gen
 from oracle import c3dref, obsmodel, contract
 
 HARNESSES = ['h_hist.cpp']
-NOPS = 56
+NOPS = 58
 OP_NAMES = {0: 'frame(declared shape)', 1: 'frame(one point too few)', 2: 'frame(one point too many)', 3: 'frame(last point renamed)', 4: 'frame(last point duplicates the first)',
             5: 'frame(empty)', 6: 'frame(points only)', 7: 'frame(analogs only)', 8: 'frame(one channel too few)', 9: 'frame(one channel too many)',
             10: 'frame(f, 0)', 11: 'frame(f, last)', 12: 'frame(f, count)', 13: 'frame(f, count+2)', 14: 'frame(one point too many, 0)',
@@ -12,7 +12,7 @@ OP_NAMES = {0: 'frame(declared shape)', 1: 'frame(one point too few)', 2: 'frame
             20: 'analog(frames)', 21: 'analog(frames, one frame short)', 22: 'analog(frames, one sub-frame short)', 23: 'analog(empty vector)', 24: 'analog(frames, existing name)', 25: 'analog(frames, second name exists)',
             26: 'POINT:RATE=0', 27: 'POINT:RATE=50', 28: 'POINT:RATE=100', 29: 'ANALOG:RATE=0', 30: 'ANALOG:RATE=100', 31: 'ANALOG:RATE=200',
             32: 'parameter(new group)', 33: 'parameter(POINT, new)', 34: 'parameter(POINT, replace with other type)', 35: 'parameter(unnamed)', 36: 'parameter(untyped, new group)', 37: 'parameter(untyped, POINT)',
-            38: 'lockGroup(POINT)', 39: 'lockGroup(unknown)', 40: 'point(name)', 41: 'point(existing name)', 42: 'analog(name)', 43: 'save+reload', 44: 'point(frames, two new points, last frame lacks the second)', 45: 'analog(frames, two new channels, last sub-frame lacks the second)', 46: 'ANALOG:RATE=300', 47: 'frame(first point renamed)', 48: 'frame(one point too few, last)', 49: 'frame(last point renamed, 0)', 50: 'point(frames, one frame too many)', 51: 'point(frames, name of the last label)', 52: 'analog(frames, one frame too many)', 53: 'analog(frames, name of the last label)', 54: 'point(frames, last frame carries a stray extra point)', 55: 'analog(frames, last frame carries a stray extra channel)'}
+            38: 'lockGroup(POINT)', 39: 'lockGroup(unknown)', 40: 'point(name)', 41: 'point(existing name)', 42: 'analog(name)', 43: 'save+reload', 44: 'point(frames, two new points, last frame lacks the second)', 45: 'analog(frames, two new channels, last sub-frame lacks the second)', 46: 'ANALOG:RATE=300', 47: 'frame(first point renamed)', 48: 'frame(one point too few, last)', 49: 'frame(last point renamed, 0)', 50: 'point(frames, one frame too many)', 51: 'point(frames, name of the last label)', 52: 'analog(frames, one frame too many)', 53: 'analog(frames, name of the last label)', 54: 'point(frames, last frame carries a stray extra point)', 55: 'analog(frames, last frame carries a stray extra channel)', 56: 'analog(existing name)', 57: 'point(name with a trailing space)'}
 START_NAMES = {0: 'fresh', 1: 'declared', 2: 'populated', 3: 'loaded', 4: 'loaded (fewer labels than points)', 5: 'loaded (empty ANALOG group)', 6: 'loaded (ANALOG:SCALE padded, ANALOG:UNITS unfilled)', 7: 'populated, two channels declared under the same name', 8: 'loaded (ANALOG:SCALE padded by three entries, ANALOG:UNITS unfilled)', 9: 'loaded (more labels than points)'}
 
 PARTIAL_ANALOG_OPS = (29, 30, 31, 46)     # ANALOG:RATE set on an object whose ANALOG group has no parameter: partially declared group, outside the claim
